@@ -217,9 +217,11 @@ PROPS["C13"] = {
     "level_text": ("Histories (3-18 steps) over a fixed name universe with near-miss partitions (other name, parent/child/sibling, escaped-dot labels, other type, CD, ECS audience, case) mix queries whose upstream outcome is scripted (answer, SERVFAIL with/without EDE, or a failure marked request-local the way the resolver marks deadline / cancellation / attempt-limit / recursion-limit), zone failures reported and cleared through the resolver's store interface, and sleeps placed around min, 2*min and max; min/max settings and the rfc9520 kill switch are generated. "
                    "A reference model decides for every query whether it is inside a backoff (exact partition, or a name at/below a failed zone, label-wise): then the reply must be a bare SERVFAIL with EDE 13 iff the client spoke EDNS and upstream must stay silent; otherwise upstream must be contacted exactly once. Recorded backoffs are read back and must start at min, at most double, never exceed max (<= 5 min), restart after a useful answer or an idle period >= max; request-local failures must leave shared state untouched; with the switch off nothing is recorded or served. "
                    "A second unit releases 2-8 concurrent clients (with identical, distinct or no ECS sources) at an expired question or zone backoff and requires a single upstream probe at a time. Exploration."),
-    "level_note": "Trusted: the reference backoff model (envelope, not the exact schedule). 'Every one of whose servers failed' is the resolver's decision and is exercised in C11/C12's resolver harness, not here; capacity evictions are not generated (default failure-cache size).",
+    "level_note": "Trusted: the reference backoff model (envelope, not the exact schedule). 'Every one of whose servers failed' as the resolver's own decision is unit 'world' (resolver-world harness: zones lose all or one of two authorities to silence / REFUSED / SERVFAIL, heal at a generated step; names of half-dead, healthy and parent zones, and - once the authorities are back and 5 min + 10 s have passed - of the dead zone itself, must be answered truthfully); capacity evictions are not generated (default failure-cache size).",
     "rule": ("evaluations = histories (and concurrent probe runs). Non-trivial = a lookup during an active backoff, a second or later consecutive failure, or a request-local cause; distinct = hash(settings, step shapes)."),
     "units": {
+        "world": {"pkg": "./server", "run": "^TestVerifC13World$", "tiers": {"quick": T(800, 8, timeout=900), "thorough": T(25000, 12, timeout=3400)},
+                  "floors": {"C13.world": {"asked-while-dead": 0.5, "must-answer": 0.8, "dead-zone-after-backoff": 0.8, "suppressed-by-cached-failure": 0.1, "zone:half.test.": 0.5}}},
         "history": {"pkg": "./server", "run": "^TestVerifC13History$",
                     "tiers": {"quick": T(1500, 8, timeout=600), "thorough": T(50000, 12, timeout=3400)},
                     "floors": {"C13.history": {"lookup-during-backoff": 0.1, "consecutive-failure": 0.03, "request-local-cause": 0.2, "success-after-failure": 0.02, "rfc9520-off": 0.05}}},
